@@ -7,6 +7,11 @@ are evaluated three ways:
   ref     harness/evalref.py, a plain-Python transcription of the documented meaning (no yaql),
   model   the compiled Lean reference interpreter Yaql.Eval.run (the theorems are about it).
 Relation: equal finalised result, or the same exception class.
+Names (variables, keyword arguments, def-ined functions, dict keys) are drawn from pools that a naming convention, a case
+fold or a sloppy lexer would rewrite, together with the names they would be rewritten into; half of the programs run
+inside a short evaluation HISTORY on one engine (a reused Statement on another document; the SAME host document object
+evaluated, updated in place by the host, evaluated again - same or freshly parsed Statement) and the LAST result is
+the one compared.
 Oracle (failing input): real differs from ref and the model does not side with real.
 Mismatch (tie broken): the model differs from real although ref agrees with real (a slip in the
 model), or ref is the odd one out (a slip in the transcription)."""
@@ -36,6 +41,8 @@ ASSUMPTIONS = ['documents are JSON-like: null / bool / int / str, lists, dicts w
                'functions of the fragment: let with def unpack list dict select where selectMany orderBy orderByDescending '
                'takeWhile skipWhile indexWhere toDict aggregate sum first toList take skip get len any all; operators '
                '+ - * = != < <= > >= and or not unary-; anything else is outside the model',
+               'function names are identified up to trailing underscores (documented: "all trailing underscores are stripped '
+               'from the names"); every other name is data',
                'out of domain (skipped, counted): a variable holding a one-shot iterator read back, lazy sequences that '
                'raise / orderings / context objects stored inside data, operators applied to lazy sequences, keyword '
                'arguments of builtins, recursion deeper than the fuel']
@@ -661,8 +668,11 @@ def run(env, res):
     res.rule = ('type-directed programs of the fragment (generator depth <= 4 quick / <= 6 thorough) over a random JSON-like '
                 'document bound to `$`: 25% scoping scenarios with random parts, 20% lists of independent expressions, the '
                 'rest typed expressions; every binding construct is followed by uses of what it bound and by reads of names '
-                'bound elsewhere; distinct = distinct (text, document); non-trivial = the real evaluation returns a value '
-                'and at least one reference makes a prediction')
+                'bound elsewhere and of RELATIVES of bound names (snake/camel, trailing / leading underscore, case, digits); '
+                'names of variables / keywords / functions / keys from adversarial pools; 50% single evaluations, 20% a reused '
+                'Statement after another document, 30% the same host document object mutated in place between evaluations '
+                '(same / fresh Statement); distinct = distinct (text, document); non-trivial = the real evaluation returns '
+                'a value and at least one reference makes a prediction')
     if env['replay']:
         rp = json.load(open(env['replay']))
         case = rp['case']
@@ -731,10 +741,14 @@ LEVEL_TEXT = ('Lean 4 theorems, for ALL expressions, contexts, documents and fue
               'sibling_independence, no_leak_*), lookup returns the nearest binding, unknown names are null, `$`/`$1`/empty name '
               'are one variable, `$k` inside a lambda body is the k-th argument of the innermost application whatever is bound '
               'outside, a def-ined function called from any later context gives the result it gives where it was defined, '
-              '`coll.name` = `coll.select($.name)`, more fuel never changes a definite outcome.  The interpreter is tied to the '
+              '`coll.name` = `coll.select($.name)`, more fuel never changes a definite outcome; names are data '
+              '(let_names_verbatim, kwarg_names_verbatim, def_names_verbatim: for ALL names, a let / keyword argument / def is '
+              'visible exactly under its own normal form - `$`-prefix and `$`=`$1` for variables, trailing underscores for '
+              'functions - and invisible to every other name).  The interpreter is tied to the '
               'code by running generated programs (typed generator, scoping scenarios, reads of names bound elsewhere) on the '
               'real engine, on the compiled model and on an independent plain-Python transcription, comparing finalised results / '
-              'exception classes three ways.')
+              'exception classes three ways; names come from pools a normalisation would rewrite, and half of the programs are '
+              'the last step of an evaluation history on one engine (reused Statement, host document mutated in place).')
 LEVEL_NOTE = ('trusted: Lean kernel; the hand-written interpreter Yaql/Model/Eval.lean (reusing the value semantics of Model/Seq.lean '
               'and the name normalisation of Model/Context.lean); harness/evalref.py; the renderer (every text is parsed back by '
               'the engine under test and compared with the AST).  "frame" holds by construction of the representation (contexts '
